@@ -224,5 +224,19 @@ static size_t build_text(uint8_t* buf, size_t cap) {
     if (nest) { o = put(buf, o, ",true]"); }
     return o;
   }
+  if (fam == 5) {
+    // two whitespace gaps in one text:  '[' ws^a V ',' ws^b W ']'  with V, W of 2 symbolic bytes each and symbolic whitespace bytes
+    // (the second gap is scanned from the cached non-space bitmap of the block the first gap filled)
+    size_t a = verif_param(2), b = verif_param(3);
+    uint8_t w[160]; verif_symbolic(w, a + b, "ws");
+    for (size_t i = 0; i < a + b; i++) verif_assume(ref::is_ws(w[i]));
+    uint8_t v[4]; verif_symbolic(v, 4, "vals");
+    buf[o++] = '[';
+    for (size_t i = 0; i < a; i++) buf[o++] = w[i];
+    buf[o++] = v[0]; buf[o++] = v[1]; buf[o++] = ',';
+    for (size_t i = 0; i < b; i++) buf[o++] = w[a + i];
+    buf[o++] = v[2]; buf[o++] = v[3]; buf[o++] = ']';
+    return o;
+  }
   return 0;
 }
